@@ -14,10 +14,10 @@ package main
 import (
 	"fmt"
 	"go/constant"
-	"os"
-	"path/filepath"
 	"go/token"
 	"go/types"
+	"os"
+	"path/filepath"
 	"sort"
 	"strings"
 
@@ -47,8 +47,8 @@ type (
 		Fn   *ssa.Function
 		Bind []AV
 	}
-	Ref      struct{ ID int }  // pointer to heap object
-	FieldRef struct {          // &base.Field
+	Ref      struct{ ID int } // pointer to heap object
+	FieldRef struct {         // &base.Field
 		Base  AV
 		Field string
 	}
@@ -63,7 +63,7 @@ type (
 	SliceV struct { // slice value; elements may contain Spread of symbolic slices
 		Elems []AV
 	}
-	Spread struct{ V AV } // all elements of a symbolic slice
+	Spread struct{ V AV }            // all elements of a symbolic slice
 	MapV   struct{ M map[string]AV } // finite map with known entries (keyed by the key's rendering); other keys absent
 	Tuple  struct{ Vs []AV }
 	Top    struct{ Why string }
@@ -84,7 +84,9 @@ func (z Zero) String() string {
 func (Nil) String() string      { return "nil" }
 func (n NonNil) String() string { return "nonnil(" + n.Tag + ")" }
 func (s Sym) String() string    { return "⟨" + s.Name + "⟩" }
-func (d Dyn) String() string    { return "dyn(" + types.TypeString(d.T, shortQ) + ":" + d.V.String() + ")" }
+func (d Dyn) String() string {
+	return "dyn(" + types.TypeString(d.T, shortQ) + ":" + d.V.String() + ")"
+}
 func (c Closure) String() string {
 	return "closure(" + relName(c.Fn) + ")"
 }
@@ -111,7 +113,7 @@ func (s SliceV) String() string {
 	return "[" + strings.Join(xs, ", ") + "]"
 }
 func (s Spread) String() string { return s.V.String() + "..." }
-func (m MapV) String() string { return fmt.Sprintf("map[%d entries]", len(m.M)) }
+func (m MapV) String() string   { return fmt.Sprintf("map[%d entries]", len(m.M)) }
 func (t Tuple) String() string {
 	var xs []string
 	for _, v := range t.Vs {
@@ -221,8 +223,8 @@ type Obj struct {
 	Fields map[string]AV
 	Elems  []AV
 	Val    AV
-	Site   string // allocation site comment
-	Opaque string // non-empty: contents unknown after being passed to an un-inlined callee; symbolic name
+	Site   string        // allocation site comment
+	Opaque string        // non-empty: contents unknown after being passed to an un-inlined callee; symbolic name
 	Before map[string]AV // fields at the moment the object became opaque
 }
 
@@ -243,7 +245,7 @@ func (o *Obj) clone() *Obj {
 // ------------------------------------------------------------------ events
 
 type Event struct {
-	Kind   string // call | invoke | store | load | panic | go | defer | recv | send | mapupdate | cut | ret
+	Kind   string        // call | invoke | store | load | panic | go | defer | recv | send | mapupdate | cut | ret
 	Fn     *ssa.Function // static callee (or closure function) when known
 	Callee AV            // dynamic callee value
 	Method string        // invoke: method name
@@ -426,15 +428,15 @@ type Interp struct {
 	SnapClosures bool
 	// HavocKeep: symbolic locations an opaque call is assumed not to modify (frame condition)
 	HavocKeep func(key string) bool
-	MaxDepth   int // max inlining depth
-	MaxVisits  int // per-activation block visit bound (loop unrolling)
-	MaxRecur   int // max simultaneous activations of one function
-	MaxPaths   int
-	Paths      int
-	Steps      int
-	budgetHit  bool
-	basePaths  int // Paths/Steps at the start of the current top-level Run/Apply (budgets are per exploration)
-	baseSteps  int
+	MaxDepth  int // max inlining depth
+	MaxVisits int // per-activation block visit bound (loop unrolling)
+	MaxRecur  int // max simultaneous activations of one function
+	MaxPaths  int
+	Paths     int
+	Steps     int
+	budgetHit bool
+	basePaths int // Paths/Steps at the start of the current top-level Run/Apply (budgets are per exploration)
+	baseSteps int
 }
 
 type Outcome struct {
@@ -2043,7 +2045,6 @@ func (s *State) TraceStrings() []string {
 	return xs
 }
 
-
 // boundFuncs: names of the function values reachable through the variables a closure captures.
 func boundFuncs(st *State, cl Closure, depth int) []string {
 	var out []string
@@ -2065,7 +2066,6 @@ func boundFuncs(st *State, cl Closure, depth int) []string {
 	}
 	return out
 }
-
 
 // boundClosures: the closure values reachable through the variables a closure captures.
 func boundClosures(st *State, cl Closure, depth int) []AV {
